@@ -139,8 +139,8 @@ def rule_L1(ctx, R):
         if not f.get("reachable"):
             continue   # crate-private helpers cannot be called by client programs; their callers are judged
         keys = [k for k in R.key_inputs(f) if k[1] in ("owned", "keyable")]
-        if keys:
-            res.ok(f["path"])
+        if keys or "REACQ" in R.roles(f):
+            res.ok(f["path"])     # (a consumed key carrier holds the key)
         else:
             p = cg.path(f["id"], sinks)
             res.bad(Violation("L1", f["path"], "keyless-blocking", "safe function can block on a lock without surrendering the "
